@@ -521,6 +521,24 @@ func runC15(c *fw.Ctx) {
 				}
 			}
 		}
+		if target == tVerifyProof {
+			// a proof that is nothing but one node of each kind (a bare value node first of all), for several block numbers
+			for _, o := range cp.wmNodes {
+				one, _ := cbor.Marshal(&wmpt.PersistTrie{Pairs: []*wmpt.PersistTriePair{{Value: o}}})
+				for _, blk := range []uint64{0, 1, 2, 5, 1 << 40} {
+					run.block = blk
+					run.feed("proof of a single node", one)
+				}
+			}
+			for _, w := range []uint64{1, 5} {
+				vb, _ := cbor.Marshal(&wmpt.PersistNodeBase{Value: &wmpt.PersistNodeValue{Value: []byte("hi"), Hash: nil, Weight: w}})
+				one, _ := cbor.Marshal(&wmpt.PersistTrie{Pairs: []*wmpt.PersistTriePair{{Value: vb}}})
+				for _, blk := range []uint64{0, 1, w, w + 1} {
+					run.block = blk
+					run.feed("proof of a single hand-built value node", one)
+				}
+			}
+		}
 		for _, raw := range []string{"", "\x80", "\x81\xf6", "\x81\x80", "\x81\x81\xf6", "\x81\x81\x40", "\x81\x82\x81\x40\x81\x40", "\x9f\xff", "\x81\x9f\xff", "\x81\x81\x41\xa0", "\x81\x81\x43\xa1\x0d\xa0", "\x81\x81\x43\xa1\x0e\xf6"} {
 			run.feed("crafted cbor", []byte(raw))
 		}
